@@ -157,6 +157,8 @@ PROPS["C15"]["quick"].append({"module": "MC_PDF", "cfg": "MC_C15d_quick.cfg", "n
 PROPS["C15"]["quick"].append({"module": "MC_PDF", "cfg": "MC_C13a_quick.cfg", "nprimes": 6, "require_acts": ["KL"]})
 # integrals on a measure whose caches were filled by an earlier light / full query, normalize() or integral
 PROPS["C03"]["quick"].append({"module": "MC_C03", "cfg": "MC_C03w_quick.cfg", "nprimes": 6, "require_acts": ["Integrate", "IntegrateLogFactor", "Normalize"]})
+# two approximate conditionals of one class alive at once, used alternately (state leaking between instances)
+PROPS["C16"]["quick"].append({"module": "MC_C16B", "cfg": "MC_C16B_quick.cfg", "nprimes": 6, "require_acts": ["ApproxTransform", "ApproxCondOnX"]})
 PROPS["C12"]["quick"].append({"kind": "b2", "traces": 80, "length": 6, "family": "MC", "nprimes": 10})
 PROPS["C02"]["quick"].append({"kind": "b2", "traces": 60, "length": 6, "family": "MC", "nprimes": 10})
 _THOROUGH_SAMPLING = {"MC_C04M_thorough.cfg": 40, "MC_C04C_thorough.cfg": 24, "MC_C12M_thorough.cfg": 60, "MC_C12C_thorough.cfg": 12}
